@@ -127,6 +127,26 @@ fn main() {
             m1.refresh().unwrap();
             println!("final {} {}", digest(&m1), digest(&m2));
         }
+        "bigarray" => {
+            // probe only: very large flattened arrays
+            let n: usize = k as usize;
+            let m = mk();
+            let a: Vec<String> = (0..n).map(|i| format!("x{}", i)).collect();
+            let t0 = std::time::Instant::now();
+            m.update(doc(&a, &[], 0)).unwrap();
+            m.commit(None).unwrap();
+            let mut b = a.clone();
+            b.reverse();
+            m.update(doc(&b, &[], 1)).unwrap();
+            m.commit(None).unwrap();
+            let mut c = b.clone();
+            c.rotate_left(n / 3);
+            c.truncate(n - 7);
+            m.update(doc(&c, &[], 2)).unwrap();
+            let rd = m.read(None).unwrap();
+            let got: Vec<String> = rd["items\u{266D}"].as_array().unwrap().iter().map(|x| x["_id"].as_str().unwrap().to_string()).collect();
+            println!("n={} ok={} elapsed={:?}", n, got == c, t0.elapsed());
+        }
         "selfmeld" => {
             // probe only (not part of any check): melding a replica into itself
             let m = mk();
